@@ -41,7 +41,7 @@ Definition sealed_in (bl : list block) : bool :=
 Definition fatal (e : err) : bool := match e with EWrongFrame => false | _ => true end.
 
 Section Run.
-Variable fc_cap : nat.
+Variable fcc_cap : nat.
 Variable pol : policy.
 Variable smp : N -> option (list N).
 
@@ -62,7 +62,7 @@ Definition step (i : inst) (o : op) : obs * inst * bool :=
     | Some w => (ObsSkip w, i, false)
     | None =>
       let es1 := aput (a_id e) e (i_es i) in
-      match process fc_cap (policy_fn pol) es1 st e with
+      match process fcc_cap (policy_fn pol) es1 st e with
       | (Err x, bl, st') =>
         (ObsP (Some x) bl (l_ldf st') (l_epoch st'),
          {| i_st := st'; i_es := es_remove (a_id e) (i_es i); i_proc := i_proc i |}, fatal x)
@@ -75,12 +75,12 @@ Definition step (i : inst) (o : op) : obs * inst * bool :=
     match guard i e false with
     | Some w => (ObsSkip w, i, false)
     | None =>
-      let '(r, st') := build_with fc_cap smp (i_es i) st e in
+      let '(r, st') := build_with fcc_cap smp (i_es i) st e in
       (ObsB r, {| i_st := st'; i_es := i_es i; i_proc := i_proc i |},
        match r with Err x => fatal x | Ok _ => false end)
     end
   | OpR =>
-    match bootstrap fc_cap (policy_fn pol) (i_es i) (persist st) with
+    match bootstrap fcc_cap (policy_fn pol) (i_es i) (persist st) with
     | (Err x, bl, st') => (ObsR (Some x) bl (l_ldf st') (l_epoch st'),
                            {| i_st := st'; i_es := i_es i; i_proc := i_proc i |}, true)
     | (Ok _, bl, st') => (ObsR None bl (l_ldf st') (l_epoch st'),
